@@ -221,18 +221,27 @@ func runC13Client(rcx *RunCtx) {
 	if xsize < 0 {
 		xsize = 0
 	}
+	shortWrite := p.Choose(4) // 0 = never; else the n-th Twrite is answered short
 	rcx.Label = "client"
-	rcx.Sample = map[string]interface{}{"side": "client", "requested_msize": reqMsize, "offered_msize": offerM, "xattr_size": xsize}
+	rcx.Sample = map[string]interface{}{"side": "client", "requested_msize": reqMsize, "offered_msize": offerM, "xattr_size": xsize, "short_write_at_chunk": shortWrite}
 	cw := &cliWorld{rcx: rcx, prop: "C13"}
 	rcx.Res = simrt.Run(cfg, rcx.Sched, func() {
 		fake := NewFakeSrv("cli")
 		cw.Fake = fake
 		fake.Msize = offerM
 		val := nbytes(77, xsize)
+		nwrites := 0
 		fake.Policy = func(r *fsReq) rc.Message {
 			switch m := r.Msg.(type) {
 			case *rc.Txattrwalk:
 				return &rc.Rxattrwalk{Size: uint64(xsize)}
+			case *rc.Twrite:
+				// one chunk of a multi-chunk write is accepted only in part
+				// (no error): whatever the client does next still fits msize
+				nwrites++
+				if nwrites == shortWrite && len(m.Data) > 1 {
+					return &rc.Rwrite{Count: uint32(1 + len(m.Data)/3)}
+				}
 			case *rc.Tread:
 				if m.Fid != 1 { // the xattr fid
 					end := int(m.Offset) + int(m.Count)
@@ -273,6 +282,7 @@ func runC13Client(rcx *RunCtx) {
 		buf := make([]byte, int(offerM)*2+13)
 		root.ReadAt(buf, 5)
 		root.WriteAt(buf, 7)
+		root.WriteAt(make([]byte, int(offerM)*3+1), 0)
 		root.Readdir(0, offerM*3)
 		for _, r := range fake.Reqs[nreq:] {
 			if r.Frame.Size > offerM {
